@@ -93,6 +93,11 @@ def build(stream, p):
     k, mask, t = p["k"], p["mask"], p["t"]
     arr = np.array(mask, dtype=bool if p["dtype"] == "bool" else int)
     before = arr.copy()
+    # a share of the masks (chosen by content) is handed over READ-ONLY (what numpy.frombuffer, a memory-mapped file or
+    # setflags(write=False) gives): a function that never modifies its argument must not need to write to it
+    import zlib
+    if zlib.crc32(arr.tobytes()) % 4 == 0:
+        arr.setflags(write=False)
     call = enc_call(51, k, mask, t)
     sub = [b if (i * 2654435761 + len(mask)) % 5 else 0 for i, b in enumerate(mask)]
 
